@@ -9,6 +9,7 @@
      CMD <inface> <name> <pdec> <app> <qdec>   one management Interest (see Model.v cmd)
      OBS none | ctl <code> <cargs> <nexthop|-> | data <name> <version> <kind> <payload> | panic <text> | hang | ...
      TAB <rib> <fib> <strat> <cs> <faces>      the implementation's tables after the command
+     LPMBAD <name>><table hops>!=<lookup hops>+..   (only if) a lookup of a FIB entry's own name does not return that entry's next hops
      LIVE <id>=<ok|dead|panic:..>,.. | -       send probe on every harness face after the command
      END
    name  : "-" (empty) or comma separated typ:hexvalue
@@ -257,10 +258,14 @@ let () =
           (match !pending_cmd, !pending_obs, !model_st, !impl_st with
            | Some (c, cln), Some (obs, _), Some mst, Some pre ->
              let obs_s = String.concat " " obs in
-             (* 1. the model, with the implementation's RIB->FIB flattening / face clean-up as the external functions *)
+             (* 1. the model; its external functions are instantiated as follows *)
              (*    and "does the encoded dataset fit one segment" answered by what the implementation did *)
              let fits = (match obs with "data" :: _ -> true | _ -> false) in
-             let out = run (fun _ _ _ -> post.s_fib) (fun _ _ _ -> (post.s_rib, post.s_fib)) !allow (fun _ -> fits) mst !model_vs c in
+             (*    RIB -> FIB: the reference flattening of the MODEL's new RIB for every prefix with routes in scope; prefixes
+                   without routes are taken as the implementation left them (an emptied entry may or may not be cleared) *)
+             let sync rib' nm _ = rib_sync rib' (Some nm) post.s_fib in
+             let cleanup id rib _ = let rib'' = rib_cleanup rib id in (rib'', rib_sync rib'' None post.s_fib) in
+             let out = run sync cleanup !allow (fun _ -> fits) mst !model_vs c in
              (match out with
               | Panic ->
                 if not (List.length obs >= 1 && List.hd obs = "panic") then diverge cln "resp" "panic" obs_s;
@@ -291,6 +296,8 @@ let () =
                    if not (spec_reject_pure pre r post) then oracle cln "impure-reject" obs_s;
                    if not (spec_status_class r) then oracle cln "status-class" obs_s;
                    if not (spec_dataset c r post) then oracle cln "dataset" obs_s;
+                   if not (spec_rib_fib pre c r post) then
+                     oracle cln "fib-after-rib" (Printf.sprintf "rib=%s fib=%s" (string_of_rib post.s_rib) (string_of_fib post.s_fib));
                    if not (spec_answered !allow c r) then
                      oracle cln "dataset-unanswered"
                        (Printf.sprintf "rib=%d,fib=%d,strat=%d,faces=%d" (List.length pre.s_rib) (List.length pre.s_fib)
@@ -314,6 +321,8 @@ let () =
                    | None -> ()) (split ',' l)
            | None -> ());
           pending_cmd := None; pending_obs := None
+        | ["LPMBAD"; l] ->
+          (match !pending_cmd with Some (_, cln) -> oracle cln "fib-lookup" l | None -> ())
         | ["END"] -> ()
         | _ -> Printf.printf "BADLINE %d %s\n" !lineno (String.sub line 0 (min 120 (String.length line)))
       with Failure m | Invalid_argument m -> Printf.printf "BADLINE %d %s\n" !lineno m)
